@@ -177,6 +177,13 @@ def random_box(rnd, sk, N, mode=None):
                 bot, top = G.enc(sk, G.IRANGE[sk][0]), G.enc(sk, G.IRANGE[sk][1])
             mid = G.enc(sk, G.small(rnd, sk))
             a, b = rnd.choice([(bot, mid), (mid, top), (bot, top), (mid, top), (bot, mid)])
+        elif mode == "fullrange":
+            # every finite value of the type on every axis ([lowest(), max()]): for floats the infinities are still outside
+            if G.isf(sk):
+                mx = fbits(sk, inf_key(sk) - 1)
+                a, b = mx | (1 << (W[sk] - 1)), mx
+            else:
+                a, b = G.enc(sk, G.IRANGE[sk][0]), G.enc(sk, G.IRANGE[sk][1])
         elif mode == "extreme":
             ex = extremes(sk)
             a, b = rnd.choice(ex), rnd.choice(ex)
